@@ -1019,7 +1019,10 @@ fn new_node<C: HCfg>(sess: Sess<C>, addr: Addr, is_spec: bool, window: usize, sc
         resim: Vec::new(),
         first_sims: Vec::new(),
         diverge_from: scn.diverge.and_then(|(n, f)| if n == idx { Some(f) } else { None }),
-        stats_handle: if scn.checks & (1 << 22) != 0 && idx < scn.peers.len() {
+        stats_handle: if scn.checks & (1 << 22) != 0 && scn.stats_spectator {
+            // hosts ask for their first spectator; spectators have a single link (any value)
+            if idx >= scn.peers.len() || scn.specs.iter().any(|sp| sp.host == scn.peers[idx].addr) { scn.num_players } else { usize::MAX }
+        } else if scn.checks & (1 << 22) != 0 && idx < scn.peers.len() {
             (0..scn.num_players).find(|h| scn.owner_of(*h) != idx).unwrap_or(usize::MAX)
         } else {
             usize::MAX
@@ -1214,7 +1217,10 @@ fn step_node<C: HCfg>(
                     s.add_local_input(*h, scn.program.value(*h, f)).expect("add_local_input for a local handle");
                 }
                 if use_wait {
-                    s.advance_frame_with_wait()
+                    match scn.peers[ni].wait_timeout_ms {
+                        Some(ms) => s.advance_frame_with_wait_timeout(std::time::Duration::from_millis(ms)),
+                        None => s.advance_frame_with_wait(),
+                    }
                 } else {
                     s.advance_frame()
                 }
@@ -1336,6 +1342,15 @@ fn fill_rec<C: HCfg>(n: &mut Node<C>, rec: &mut CallRec) {
     if let Sess::P(s) = &n.sess {
         if n.stats_handle != usize::MAX {
             rec.stats = match catch_unwind(AssertUnwindSafe(|| s.network_stats(n.stats_handle))) {
+                Ok(Ok(st)) => (R_OK, st.ping as i64, st.local_frames_behind, st.remote_frames_behind),
+                Ok(Err(e)) => (err_code(&e), -1, 0, 0),
+                Err(_) => (R_PANIC, -1, 0, 0),
+            };
+        }
+    }
+    if let Sess::S(s) = &n.sess {
+        if n.stats_handle != usize::MAX {
+            rec.stats = match catch_unwind(AssertUnwindSafe(|| s.network_stats())) {
                 Ok(Ok(st)) => (R_OK, st.ping as i64, st.local_frames_behind, st.remote_frames_behind),
                 Ok(Err(e)) => (err_code(&e), -1, 0, 0),
                 Err(_) => (R_PANIC, -1, 0, 0),
